@@ -1,0 +1,22 @@
+//go:build verif
+
+// Machine-checked contracts for package executor (comment-only; read by
+// /verif/govc, never compiled into the program).
+
+package executor
+
+// ghost trace of interpreter runs: run i executed job runJob[i] and returned runErr[i]
+//@ ghost runN int
+//@ ghost runJob map[int]*Job
+//@ ghost runErr map[int]error
+
+//@ func NewDefaultExecutor
+//@   nomod
+//@   ensures result#1 == nil ==> result != nil
+//@   ensures !exitOK(result#1)
+
+//@ func (*DefaultExecutor).Execute
+//@   requires e != nil && job != nil && job.Vars != nil
+//@   modifies runN, runJob, runErr, job.Dir, e.*
+//@   ensures #at-most-one-run (runN == old(runN) && result#1 != nil && !exitOK(result#1)) || (runN == old(runN) + 1 && runJob[old(runN)] == job && runErr[old(runN)] == result#1)
+//@   ensures #log-prefix forall i int :: i < old(runN) ==> runJob[i] == old(runJob[i]) && runErr[i] == old(runErr[i])
